@@ -81,7 +81,8 @@ func LoadProgram(repoDir string) (*Program, error) {
 			continue
 		}
 		for _, f := range pk.GoFiles {
-			if filepath.Base(f) != "contracts_verif.go" {
+			base := filepath.Base(f)
+			if !(strings.HasPrefix(base, "contracts") && strings.HasSuffix(base, "_verif.go")) {
 				continue
 			}
 			cf, err := ParseContractFile(f, pk.Name)
